@@ -76,8 +76,8 @@ pub fn induce(d: &Doc, esi: bool) -> Tree {
                         r.attrs
                             .iter()
                             .map(|a| {
-                                let n = String::from_utf8_lossy(&d.bytes[a.name.0..a.name.1]).to_string();
-                                RAttrV { name: lower(&n), name_pc: n, value: String::from_utf8_lossy(&d.bytes[a.value.0..a.value.1]).to_string(), name_range: a.name, value_range: a.value }
+                                let n = d.decode(a.name);
+                                RAttrV { name: lower(&n), name_pc: n, value: d.decode(a.value), name_range: a.name, value_range: a.value }
                             })
                             .collect::<Vec<_>>(),
                         r.self_closing,
